@@ -94,6 +94,13 @@ def _near(a, b):
 
 
 def main(pid, modname, tier, replay_path=None):
+    # scratch files of the solver portfolio go to a directory of this run, removed at the end (also when workers were abandoned)
+    import atexit
+    import shutil
+    import tempfile
+    rundir = tempfile.mkdtemp(prefix='fvrun')
+    tempfile.tempdir = rundir
+    atexit.register(shutil.rmtree, rundir, True)
     t_start = time.time()
     seed = int(os.environ.get('VERIF_SEED', '0') or 0)
     rnd = random.Random(seed)
